@@ -301,6 +301,44 @@ fn scenario(seed: u64, k: u64, out: &Out) {
         }
         out.cell("liar-vote|liars-connected-first");
     }
+    if !lied_at.is_empty() {
+        // the honest peers join one by one: for a while the proven peers with data are the liars plus fewer honest peers than the
+        // quorum (exactly `quorum` peers with data, not all of them honest), and their vectors have different lengths
+        if rng.chance(1, 3) && npeers > ndev + 1 {
+            // one honest peer lags a few blocks behind the others
+            let lag = rng.range(1, 6).min(chain.tip().saturating_sub(2));
+            let mut v = chain.clone();
+            v.truncate(chain.tip() - lag);
+            let vci = w.add_chain(v);
+            w.peers[ndev].chain = vci;
+            out.cell("liar-vote|one-honest-peer-lags");
+        }
+        let mut order: Vec<usize> = (ndev..npeers).collect();
+        for i in (1..order.len()).rev() {
+            let j = rng.range(0, i as u64) as usize;
+            order.swap(i, j);
+        }
+        if rng.chance(1, 3) {
+            // the liars come in between
+            for pi in 0..ndev {
+                if !w.peers[pi].connected {
+                    order.insert(rng.range(0, order.len() as u64) as usize, pi);
+                }
+            }
+        }
+        for pi in order {
+            if !w.peers[pi].connected {
+                w.connect(pi);
+            }
+            for _ in 0..rng.range(0, 8) {
+                w.round(&mut adv);
+            }
+            if w.dead {
+                break;
+            }
+        }
+        out.cell("liar-vote|honest-peers-join-one-by-one");
+    }
     w.connect_all();
     let conv = w.run_until(&mut adv, 400, |w| w.converged_on(0)).is_some();
     out.count(if conv { "converged" } else { "not_converged" }, 1);
